@@ -29,20 +29,21 @@ Theorem C07_try_body : forall d c,
 Proof. exact try_wraps_ok. Qed.
 Print Assumptions C07_try_body.
 
-(* into_existing assigns, to the place into() fills, the value into() puts there - named and positional counterparts *)
+(* into_existing assigns, to the place into() fills (under the field's child path), the value into() puts there *)
 Theorem C07_existing_named : forall f c k2 hint idx p v,
     plain_field f c -> is_intoish (c_kind c) = true -> is_into_existing k2 = true ->
     dest_named (fv_member f) hint = Some true -> place_named f = Ok p -> value_out f c = Ok v ->
     render_struct_line f c hint idx None = Ok ([member_tok p; P1 ":"] ++ v ++ [comma]) /\
-    render_struct_line f (set_kind c k2) hint idx None = Ok ([TIdent "other"; dot; member_tok p; P1 "="] ++ v ++ [semi]).
+    render_struct_line f (set_kind c k2) hint idx None = Ok ([TIdent "other"; dot] ++ path_of f p ++ [P1 "="] ++ v ++ [semi]).
 Proof. exact existing_agrees_with_into. Qed.
 Print Assumptions C07_existing_named.
 
 Theorem C07_existing_positional : forall f c k2 hint idx v,
     plain_field f c -> is_intoish (c_kind c) = true -> is_into_existing k2 = true ->
+    ~ f03b_cell f (set_kind c k2) hint ->
     dest_named (fv_member f) hint = Some false -> place_positional f idx = Ok (MIndex idx) -> value_out f c = Ok v ->
     render_struct_line f c hint idx None = Ok (v ++ [comma]) /\
-    render_struct_line f (set_kind c k2) hint idx None = Ok ([TIdent "other"; dot; member_tok (MIndex idx); P1 "="] ++ v ++ [semi]).
+    render_struct_line f (set_kind c k2) hint idx None = Ok ([TIdent "other"; dot] ++ path_of f (MIndex idx) ++ [P1 "="] ++ v ++ [semi]).
 Proof. exact existing_agrees_with_into_positional. Qed.
 Print Assumptions C07_existing_positional.
 
